@@ -173,6 +173,27 @@ def handle (toks : List String) : String :=
           | none => "err"
       s!"{m}\t{s}"
     | _, _ => "bad-op\t-"
+  | "c" :: _mode :: _wrap :: rest =>
+    let (tt, et) := splitAt rest
+    match parseT tt, parseTable et true with
+    | some (pt, []), some tab =>
+      let H := hostOf tab
+      let form := match pt.toTmpl? with
+        | some t => t.toSexp
+        | none => pt.toSexp
+      let showI : Instr → String
+        | .push v => s!"P {render v}"
+        | .marker => "M"
+        | .eval (.atom (.sym n)) => s!"G {n}"
+        | .eval e => s!"G? {render e}"
+        | .explode => "X"
+        | .squash => "Q"
+        | .vectorize => "V"
+        | .hashize ty => s!"H {ty}"
+      match genTop H form with
+      | some code => s!"code {" , ".intercalate (code.map showI)}\t-"
+      | none => "err\t-"
+    | _, _ => "bad-op\t-"
   | "m" :: _site :: n :: rest =>
     let (tt, av) := splitAt rest
     match (parseT tt).bind (fun (pt, r) => if r.isEmpty then pt.toTmpl? else none), parseTable av false, n.toNat? with
